@@ -568,8 +568,213 @@ class InputContainers(Leg):
         return "true"
 
 
+# ---------------------------------------------------------------------------------------------
+# leg 4: containers kept in fields, taken in and handed out (tie: FieldAlias.v)
+# ---------------------------------------------------------------------------------------------
+POOL = 6
+FIELD_KINDS = ["U", "L", "VU", "VL"]
+
+
+def _field_api(kind):
+    """pool of element objects + (construct from a container, accessor, library add, library remove) of one field kind"""
+    from edgegraph.structure import Link
+    if kind == "U":        # Universe.vertices
+        pool = [Vertex() for _ in range(POOL)]
+        return pool, (lambda c: Universe(vertices=c)), (lambda o: o.vertices), (lambda o, x: o.add_vertex(x)), (lambda o, x: o.remove_vertex(x))
+    if kind == "L":        # Link.vertices
+        pool = [Vertex() for _ in range(POOL)]
+        return pool, (lambda c: Link(vertices=c, _force_creation=True)), (lambda o: o.vertices), (lambda o, x: o.add_vertex(x)), (lambda o, x: o.unlink_from(x))
+    if kind == "VU":       # Vertex.universes
+        pool = [Universe() for _ in range(POOL)]
+        return pool, (lambda c: Vertex(universes=c)), (lambda o: o.universes), (lambda o, x: o.add_to_universe(x)), (lambda o, x: o.remove_from_universe(x))
+    pool = [Link(_force_creation=True) for _ in range(POOL)]          # Vertex.links
+    return pool, (lambda c: Vertex(links=c)), (lambda o: o.links), (lambda o, x: o.add_to_link(x)), (lambda o, x: o.remove_from_link(x))
+
+
+def _spec_run(ops):
+    """value-only specification (mirror of FieldAlias.sstep): the answers of the FRead steps"""
+    client, owned, fields, ans = [], set(), [], []
+    for op in ops:
+        a = None
+        if op[0] == "FAlloc":
+            owned.add(len(client))
+            client.append(list(op[1]))
+        elif op[0] == "FNew":
+            if op[1] in owned:
+                fields.append(list(client[op[1]]))
+                client.append([])
+        elif op[0] == "FRead":
+            if op[1] < len(fields):
+                a = list(fields[op[1]])
+                owned.add(len(client))
+                client.append(list(a))
+        elif op[0] == "FLibAdd":
+            if op[1] < len(fields):
+                fields[op[1]].append(op[2])
+        elif op[0] == "FLibDel":
+            if op[1] < len(fields) and op[2] in fields[op[1]]:
+                fields[op[1]].remove(op[2])
+        elif op[0] == "FClient":
+            if op[1] in owned:
+                client[op[1]] = list(op[2])
+        ans.append(a)
+    return ans
+
+
+class FieldHistory(Leg):
+    name = "fieldalias"
+    imports = "From EG Require Import Base FieldAlias."
+    checkfn = "fcheck"
+    case_type = "(list fop * list (option (list nat)))%type"
+    rule = ("lock-step histories over one kind of container field (Universe.vertices, Link.vertices, Vertex.universes, Vertex.links): "
+            "the client builds lists, constructs objects from them (vertices= / universes= / links=), reads the accessor, the library "
+            "mutates the field (add / remove through the public mutators) and the client overwrites ANY list it ever held - its own, "
+            "one it passed to a constructor, one an accessor handed it (immutable containers refuse, which the term records as no "
+            "edit); every accessor answer is compared with FieldAlias.fanswers (copying model, proved equal to the value-only "
+            "specification) and, as the oracle, with the value-only specification itself; non-trivial = a list is edited after it "
+            "was passed in or handed out and the field is read afterwards")
+    quick_n = 300
+    thorough_n = 6000
+
+    def generate(self, rng, n):
+        for _ in range(n):
+            kind = rng.choice(FIELD_KINDS)
+            ops, client, owned, fields = [], [], [], []
+            for _ in range(rng.randint(4, 18)):
+                r = rng.random()
+                if r < 0.15 or not owned:
+                    xs = rng.sample(range(POOL), rng.randint(0, 3))
+                    ops.append(["FAlloc", xs]); owned.append(len(client)); client.append(list(xs))
+                elif r < 0.30:
+                    loc = rng.choice(owned)
+                    ops.append(["FNew", loc]); fields.append(list(client[loc])); client.append([])
+                elif r < 0.55 and fields:
+                    f = rng.randrange(len(fields))
+                    ops.append(["FRead", f]); owned.append(len(client)); client.append(list(fields[f]))
+                elif r < 0.67 and fields:
+                    f = rng.randrange(len(fields))
+                    absent = [x for x in range(POOL) if x not in fields[f]]
+                    if absent:
+                        x = rng.choice(absent)
+                        ops.append(["FLibAdd", f, x]); fields[f].append(x)
+                elif r < 0.75 and fields:
+                    f = rng.randrange(len(fields))
+                    if fields[f]:
+                        x = rng.choice(fields[f])
+                        ops.append(["FLibDel", f, x]); fields[f].remove(x)
+                else:
+                    loc = rng.choice(owned)
+                    xs = rng.sample(range(POOL), rng.randint(0, 4))
+                    ops.append(["FClient", loc, xs]); client[loc] = list(xs)
+            yield {"kind": kind, "ops": ops}
+
+    def observe(self, case):
+        """runs the history on the library; returns the ops as they took effect (an edit an immutable container refused is
+        recorded as an edit of no owned location) and the accessor answers"""
+        caching = Vertex.NEIGHBOR_CACHING
+        try:
+            pool, make, read, add, rem = _field_api(case["kind"])
+            ident = {id(x): i for i, x in enumerate(pool)}
+            conts, objs, eff, ans = {}, [], [], []
+            nloc = 0
+            for op in case["ops"]:
+                a = None
+                try:
+                    if op[0] == "FAlloc":
+                        conts[nloc] = [pool[i] for i in op[1]]
+                        nloc += 1
+                    elif op[0] == "FNew":
+                        if op[1] in conts:
+                            nloc += 1                      # the library's own copy: no handle for the client
+                            objs.append(None)
+                            objs[-1] = make(conts[op[1]])
+                    elif op[0] == "FRead":
+                        if op[1] < len(objs):
+                            got = read(objs[op[1]])
+                            a = [ident.get(id(x), 99) for x in got]
+                            conts[nloc] = got
+                            nloc += 1
+                    elif op[0] == "FLibAdd":
+                        if op[1] < len(objs):
+                            add(objs[op[1]], pool[op[2]])
+                    elif op[0] == "FLibDel":
+                        if op[1] < len(objs):
+                            rem(objs[op[1]], pool[op[2]])
+                    elif op[0] == "FClient":
+                        if op[1] in conts:
+                            try:
+                                conts[op[1]][:] = [pool[i] for i in op[2]]
+                            except TypeError:
+                                op = ["FClient", 9999, op[2]]      # immutable: the client cannot edit it
+                except Exception:  # noqa: BLE001 - a library call of a well-formed history raised: no answer the model can give
+                    a = [98]
+                eff.append(op)
+                ans.append(a)
+            return {"eff": eff, "answers": ans}
+        finally:
+            Vertex.NEIGHBOR_CACHING = caching
+
+    def oracle(self, case, obs):
+        want = _spec_run(obs["eff"])
+        for i, (op, a, b) in enumerate(zip(obs["eff"], obs["answers"], want)):
+            if a != b:
+                return [f"{case['kind']} field: step {i} {op} answered {a}; by the library's own mutations alone the field holds {b} "
+                        f"(a list the client held and edited is the field's own list, or the constructor kept the caller's list)"]
+        return []
+
+    def _ops_term(self, ops):
+        def one(op):
+            if op[0] == "FAlloc":
+                return f"FAlloc {C.clist(op[1])}"
+            if op[0] == "FClient":
+                return f"FClient {C.cnat(op[1])} {C.clist(op[2])}"
+            return op[0] + " " + " ".join(C.cnat(x) for x in op[1:])
+        return C.clist(ops, one)
+
+    def term(self, case, obs):
+        answers = C.clist(obs["answers"], lambda a: C.copt(a, lambda xs: C.clist(xs)))
+        return f"({self._ops_term(obs['eff'])}, {answers})"
+
+    def model_value(self, case, obs):
+        return f"(fanswers true true finit {self._ops_term(obs['eff'])})"
+
+    def stats(self, case, obs, acc):
+        acc.setdefault("kinds", {})
+        acc["kinds"][case["kind"]] = acc["kinds"].get(case["kind"], 0) + 1
+        acc.setdefault("ops", {})
+        for op in obs["eff"]:
+            k = op[0] if not (op[0] == "FClient" and op[1] == 9999) else "FClient(refused: immutable)"
+            acc["ops"][k] = acc["ops"].get(k, 0) + 1
+
+    def nontrivial(self, case, obs):
+        exposed, edited = set(), False
+        nloc = 0
+        for op in obs["eff"]:
+            if op[0] == "FAlloc":
+                nloc += 1
+            elif op[0] == "FNew":
+                exposed.add(op[1]); nloc += 1
+            elif op[0] == "FRead":
+                if edited:
+                    return True
+                exposed.add(nloc); nloc += 1
+            elif op[0] == "FClient" and op[1] in exposed:
+                edited = True
+        return False
+
+    def shrink_candidates(self, case):
+        ops = case["ops"]
+        for i in range(len(ops) - 1, -1, -1):
+            if ops[i][0] in ("FClient", "FLibAdd", "FLibDel"):
+                yield {"kind": case["kind"], "ops": ops[:i] + ops[i + 1:]}
+
+
+
 class C12(Prop):
     pid = "C12"
-    legs = [ClientEdits(), AccessorMatrix(), InputContainers()]
-    assumptions = ["the Coq model gives object identity to the retained containers only (the memo: MemoAlias.v); that the other "
-                   "accessors copy is decided by the exhaustive accessor x edit matrix on the implementation, not by a theorem"]
+    legs = [ClientEdits(), AccessorMatrix(), InputContainers(), FieldHistory()]
+    assumptions = ["the Coq model gives object identity to the memo of neighbors() answers (MemoAlias.v) and to the list fields taken in "
+                   "by constructors and handed out by accessors (FieldAlias.v: Universe.vertices, Link.vertices, Vertex.universes, "
+                   "Vertex.links); that the remaining containers (edge_whitelist proxy, attributes=, adjacency inputs, find_links / "
+                   "traversal results) are detached is decided by the exhaustive accessor x edit and input matrices on the "
+                   "implementation, not by a theorem"]
